@@ -24,7 +24,7 @@ func (x *Exec) atCallAsserts(st *State, fr *Frame, callee string, pnames []strin
 	var cenv *Env
 	for ai := range fr.fc.Asserts {
 		a := &fr.fc.Asserts[ai]
-		if a.Ordinal != ord || !calleeMatches(a.Callee, callee) {
+		if a.Kind == "set" || a.Ordinal != ord || !calleeMatches(a.Callee, callee) {
 			continue
 		}
 		if cenv == nil {
@@ -40,6 +40,54 @@ func (x *Exec) atCallAsserts(st *State, fr *Frame, callee string, pnames []strin
 		}
 		x.E.markAssertUsed(fr.fc, ai)
 		x.oblige(st, "assert", labelOr(a.C, "at-call"), x.evalBool(cenv, a.C.E), a.C.Src, where)
+	}
+}
+
+// withGhostSets wraps the continuation of a call with the ghost updates declared
+// for it ("at call K of F set g = expr": evaluated after the call, results visible).
+func (x *Exec) withGhostSets(fr *Frame, callee string, pnames []string, args []Val, results *types.Tuple, k func(*State, Val)) func(*State, Val) {
+	if fr.fc == nil {
+		return k
+	}
+	if x.dry || fr.callOrd == nil {
+		// effect computation: any ghost this callee may set is written by the loop
+		for ai := range fr.fc.Asserts {
+			a := &fr.fc.Asserts[ai]
+			if a.Kind == "set" && calleeMatches(a.Callee, callee) && x.dry {
+				x.dryEff.ghost["ghost!"+a.Ghost] = true
+			}
+		}
+		return k
+	}
+	ord := fr.callOrd[callee]
+	var sets []*AtCall
+	for ai := range fr.fc.Asserts {
+		a := &fr.fc.Asserts[ai]
+		if a.Kind == "set" && a.Ordinal == ord && calleeMatches(a.Callee, callee) {
+			sets = append(sets, a)
+			x.E.markAssertUsed(fr.fc, ai)
+		}
+	}
+	if len(sets) == 0 {
+		return k
+	}
+	return func(st *State, res Val) {
+		env := x.envFor(st, fr)
+		for i, n := range pnames {
+			if i < len(args) {
+				env.vars["arg."+n] = args[i]
+			}
+		}
+		if results != nil && len(res.L) > 0 {
+			x.bindResults(env, results, res)
+		}
+		for _, a := range sets {
+			v := x.eval(env, a.C.E)
+			if len(v.L) == 1 {
+				st.ghost["ghost!"+a.Ghost] = v.L[0]
+			}
+		}
+		k(st, res)
 	}
 }
 
@@ -377,6 +425,13 @@ func (x *Exec) chanRecv(st *State, fr *Frame, v *ssa.UnOp) {
 	ch := x.reg(st, fr, v.X)
 	et := ch.T.Underlying().(*types.Chan).Elem()
 	val := x.freshVal("recv", et, st)
+	if fr.fc != nil {
+		if _, ok := fr.fc.Flags["recvnonnil"]; ok && len(val.L) == 1 && isRefLike(et) {
+			// channel invariant declared by the contract: received pointers are not nil
+			st.assume(Or(Not(Eq(val.L[0], IntC(0))), FalseT))
+			x.E.noteAssumption("channel invariant (flag recvnonnil): elements received in " + relName(fr.fn) + " are non-nil pointers")
+		}
+	}
 	cntKey := chanKey(ch) + "!recvd"
 	cnt, ok := st.ghost[cntKey]
 	if !ok {
